@@ -21,6 +21,7 @@ EXPLANATION = (
 NOT_DECIDED = ["the i386 template (no 32-bit headers in this sandbox)", "MXCSR / x87 control words (not in the property's register list)",
                "correctness of libc swapcontext and of libgcc's split-stack runtime (trusted)"]
 ASSUMPTIONS = ["SysV x86-64 ABI: callee-saved GPRs are rbx, rbp, r12-r15 (+ rsp)"]
+THOROUGH_CONFIGS = ("debug",)  # malloc / mmap / ucontext are handled by thorough() below
 CALLEE_SAVED = {"rbx", "rbp", "r12", "r13", "r14", "r15"}
 CTX = "fiber_context"
 
